@@ -11,3 +11,9 @@ pub assume_specification<T, E>[ Result::<T, E>::unwrap_or ](o: Result<T, E>, d: 
     ensures r == (match o { Ok(x) => x, Err(_) => d });
 pub assume_specification<T, E, U, F: FnOnce(T) -> Result<U, E>>[ Result::<T, E>::and_then ](o: Result<T, E>, f: F) -> (r: Result<U, E>)
     ensures match o { Ok(x) => call_ensures(f, (x,), r), Err(e) => r == Err::<U, E>(e) };
+
+// std::mem::replace (vstd specifies swap and Option::take, not replace)
+pub assume_specification<T>[ core::mem::replace::<T> ](dest: &mut T, src: T) -> (r: T)
+    ensures *final(dest) == src, r == *old(dest),
+    opens_invariants none
+    no_unwind;
